@@ -32,6 +32,8 @@ THOROUGH = QUICK + [
     (1, [[2, 2], [2]], 2), (1, [[2], [2, 2]], 2), (3, [[3]], 2), (2, [[1, 4]], 2),
 ]
 BOUNDARY = [256, 257, 65536, 65537]
+LONG_N = 20
+LONG_RUNS = [9, 10, 12, 16, 17, 18, 19]   # one entry this many times longer than the one it meets (galloping / bisecting merges switch strategy on the ratio)
 
 
 def describe(tier):
@@ -40,9 +42,10 @@ def describe(tier):
         "rule": "for every configuration (rows N, per-dimension extra-axis extents, E real categories) in the list: EVERY data array over "
         "{0..E-1}, EVERY common value in 0..E per dimension (E = absent from the data), explicit shape (E+1 per dim) and inferred shape; count() "
         "read through the NaN format and the (0, False) format. Plus boundary extents %r on one dimension (alone and crossed with a small one) "
-        "and the zero-dimension cube with N=0..3. Oracle: loop over rows incrementing a table; missing iff zero. Non-trivial: >=2 dimensions or "
+        "and the zero-dimension cube with N=0..3; plus a %d-row family where one dimension holds a run of L in %r rows (every start) and the other one or two rows "
+        "(every single row, every pair of run-edge rows), both orders and a third alternating dimension. Oracle: loop over rows incrementing a table; missing iff zero. Non-trivial: >=2 dimensions or "
         "an extra axis, and at least one dimension whose common cell is reconstructed non-empty while another value is present. "
-        "Distinct = distinct (config, data, commons)." % (BOUNDARY,),
+        "Distinct = distinct (config, data, commons)." % (BOUNDARY, LONG_N, LONG_RUNS),
         "bounds": {"configs": [(n, [list(e) for e in ex], E) for n, ex, E in cfg]},
         "exhaustive": True,
         "assumptions": ["indexes are built by the harness builder (models.build_index), not by from_array"],
@@ -71,6 +74,8 @@ def blocks(tier):
         step = max(1, 600 // max(1, rest))
         for a in range(0, n0, step):
             out.append(("cfg", {"N": N, "extras": extras, "E": E, "a0": a, "a1": min(n0, a + step)}))
+    for L in LONG_RUNS:
+        out.append(("long", {"L": L}))
     for X in BOUNDARY:
         for N in (1, 2, 3):
             for i in range(3 ** N):
@@ -155,6 +160,25 @@ def run_block(family, p, acc):
                 acc.violation("count0:raised", case, repr(e))
             acc.case(("zero", N), nontrivial=False, outcome=("zero", N), sample=case)
         return
+    if family == "long":
+        N, L = LONG_N, p["L"]
+        third = numpy.arange(N, dtype=numpy.int64) % 2
+        for s0 in range(0, N - L + 1):
+            run = numpy.zeros(N, dtype=numpy.int64)
+            run[s0:s0 + L] = 1
+            edge = sorted({0, max(0, s0 - 1), s0, s0 + L - 1, min(N - 1, s0 + L), N - 1})
+            probes = [(r,) for r in range(N)] + list(itertools.combinations(edge, 2))
+            for pr in probes:
+                b = numpy.zeros(N, dtype=numpy.int64)
+                b[list(pr)] = 1
+                for c1, c2 in ((0, 0), (1, 0), (2, 0)):
+                    case = {"long": True, "run": [s0, L], "probe": list(pr), "commons": [c1, c2]}
+                    check_cube([run, b], [c1, c2], (3, 3), acc, dict(case, order="run,probe"))
+                    check_cube([b, run], [c2, c1], (3, 3), acc, dict(case, order="probe,run"))
+                    acc.case(("long", s0, L, pr, c1), nontrivial=True, outcome=("long", bool(run[list(pr)].any())), sample=case)
+                case = {"long": True, "run": [s0, L], "probe": list(pr), "commons": [0, 0, 0], "order": "3d"}
+                check_cube([run, b, third], [0, 0, 0], (3, 3, 3), acc, case)
+        return
     if family == "boundary":
         X = p["X"]
         vals = [0, X - 2, X - 1]
@@ -192,7 +216,20 @@ def replay(case, site=None):
     from catii.ccubes import ccube
 
     acc = Acc(ID, [], stop_at_first=False)
-    if "X" in case:
+    if case.get("long"):
+        N = LONG_N
+        run = numpy.zeros(N, dtype=numpy.int64)
+        run[case["run"][0]:case["run"][0] + case["run"][1]] = 1
+        b = numpy.zeros(N, dtype=numpy.int64)
+        b[case["probe"]] = 1
+        c = case["commons"]
+        if case.get("order") == "3d":
+            check_cube([run, b, numpy.arange(N, dtype=numpy.int64) % 2], c, (3, 3, 3), acc, case)
+        elif case.get("order") == "probe,run":
+            check_cube([b, run], [c[1], c[0]], (3, 3), acc, case)
+        else:
+            check_cube([run, b], c, (3, 3), acc, case)
+    elif "X" in case:
         a = numpy.array(case["data"], dtype=numpy.int64)
         if "data2" in case:
             b = numpy.array(case["data2"], dtype=numpy.int64)
